@@ -12,6 +12,7 @@
 From Coq Require Import List ZArith.
 From Coq Require Import Ring InitialRing.
 From Yv Require Import Mps.Vec Mps.MpsDense Mps.MpsLaws.
+From Yv Require Base.Deleg Gen.DelegGen.
 From Yv Require Mps.MpoApply.
 Import ListNotations.
 Open Scope Z_scope.
@@ -83,6 +84,11 @@ Example C06_product_nonvacuous :
   MpoApply.propP Z 0 Z.add Z.mul 2 1 1 (MpoApply.kronv Z Z.mul 1 (fun k => if Nat.eqb k 0 then 1 else 0) (fun k => if Nat.eqb k 0 then 1 else 0)) [s1; s2] [1%nat; 0%nat] 0%nat = 471.
 Proof. split; [cbn; repeat split; repeat constructor | vm_compute; reflexivity]. Qed.
 
+(* --- options are handed down under their own names (facts regenerated from the source on every run by tools/translate/tr_deleg.py): compression_ / zipper pass opts_svd and normalize on under their own names (the initial canonisation normalises: allowed once) --- *)
+Theorem C06_options_forwarded :
+  Deleg.deleg_ok Deleg.pre_compression DelegGen.delegations DelegGen.allowed = true /\ Nat.ltb 0 (Deleg.n_facts Deleg.pre_compression DelegGen.delegations) = true.
+Proof. split; vm_compute; reflexivity. Qed.
+
 Print Assumptions C06_add.
 Print Assumptions C06_kron_mixed.
 Print Assumptions C06_mpo_times_mps.
@@ -90,3 +96,4 @@ Print Assumptions C06_mpo_times_mps_Z.
 Print Assumptions C06_mpo_times_mpo.
 Print Assumptions C06_block_diagonal.
 Print Assumptions C06_column_stack.
+Print Assumptions C06_options_forwarded.
